@@ -20,9 +20,9 @@ CHECKS = {
                 text='Seeded random and planned workload: key/block pairs, CTR streams under 3 partitions each (0-length, sub-block and multi-block calls), crypto_aesctr_buf, in-place, encrypt-twice, init2 re-use with and without a new key, streams of >300 and >70,000 blocks (2^24 in thorough) cut around blocks 255/256/65535/65536 on both the incremental and the bulk path.',
                 note='Keys, nonces and partitions are sampled; counter carries above 2^16 blocks run in the thorough tier only; inconclusive if the AES-NI build does not select AES-NI.'),
     'C03': dict(level='exploration', ref='4/C03',
-                technique='runtime monitoring of build variants: the alg/crypto objects compiled in every subset of {SHANI+SSSE3, SSE2, SSE42 32/64, AESNI} and with run-time detectors substituted to answer "absent" (39 configurations), one seeded workload, N-way comparison plus references; --wrap call counters prove which implementation ran',
-                text='All 39 configurations executable on this host are enumerated; inputs (alignments 0..15, lengths and partitions around the 8/16/64-byte thresholds) are sampled. Every answer is compared with hashlib/hmac, the CRC algebra and the AES reference and with every other variant; a self-test "Disabling ..." warning counts as a violation.',
-                note='ARM paths cannot run on this host. A variant whose intended path never ran (or whose forbidden path ran) makes the result inconclusive, never a pass.'),
+                technique='runtime monitoring of build variants: the alg/crypto objects compiled in every subset of {SHANI+SSSE3, SSE2, SSE42 32/64, AESNI}, with run-time detectors substituted to answer "absent", without CPUID (39 builds), plus 10 "self-test fails" variants in which the CPU reports the feature but the library\'s own start-up self-test of the implementation is made to fail once through the --wrap wrapper (49 configurations); one seeded workload, N-way comparison plus references; --wrap call counters prove which implementation ran and that a disabled implementation is never used afterwards',
+                text='All 49 configurations executable on this host are enumerated. Inputs are sampled: alignments 0..15; lengths and partitions around the 8/16/64-byte thresholds; AES-CTR streams already in use containing one call of 256..1248 whole blocks followed by sub-block calls, 0-length calls and a tail. Every answer is compared with hashlib/hmac, the CRC algebra and the AES reference and with every other variant. A "Disabling ..." warning is a violation except in the self-test-fails variants, where any call of the disabled implementation after the warning is a violation.',
+                note='ARM paths cannot run on this host. A variant whose intended path never ran (or whose forbidden path ran) makes the result inconclusive, never a pass. The failed self-test is simulated in the harness (the first call of the wrapped entry point carrying the library\'s self-test vector is failed); the CPU is not faulty.'),
     'C04': dict(level='exploration', ref='4/C04',
                 technique='runtime monitoring: trace checker (vlib/evtrace.py rule set C04) over the API-boundary event log of random register/cancel/reset programs run by the real event loop on a simulated kernel (interposed poll/clock_gettime), invariant hook of events_network.c at every callback and poll entry, ASan+UBSan with real and pass-through pool',
                 text='20,000 (quick) / 600,000 (thorough) random programs, each ending in a drain where every surviving registration must fire exactly once; rules: callback only while registered and at most once, socket callback only after a poll reported the direction ready since registration (or the latest poll reported ERR/HUP), timer never early, EEXIST/ENOENT, the six structural invariants.',
@@ -37,7 +37,7 @@ CHECKS = {
                 note='Kernel simulated; EAGAIN == EWOULDBLOCK on Linux; connect completions are generated >= 3 ms away from the timeout (ties not generated).'),
     'C07': dict(level='exploration', ref='4/C07',
                 technique='runtime monitoring: every byte visible through netbuf_read_peek compared with the peer\'s keyed stream, every byte accepted by the interposed send compared with the concatenation of the writes; exactly-once callbacks; ASan+UBSan',
-                text='16,000 (quick) / 1M (thorough) histories of wait(k)/peek/consume(j)/cancel with k from 1 to 20000 (growth and compaction of the 4096-byte buffer) and of reserve/consume/write with sizes 0..50000, crossed with segmentations, EAGAIN/EINTR patterns, EOF and failure offsets (incl. early ones that hit small uncoalesced buffers).',
+                text='16,000 (quick) / 300,000 (thorough) histories of wait(k)/peek/consume(j)/cancel with k from 1 to 20000 (growth and compaction of the 4096-byte buffer) and of reserve/consume/write with sizes 0..50000, crossed with segmentations, EAGAIN/EINTR patterns, EOF and failure offsets (incl. early ones that hit small uncoalesced buffers).',
                 note='Kernel simulated. After EOF/error is reported the reader is not used further.'),
     'C08': dict(level='exploration', ref='4/C08',
                 technique='runtime monitoring: ASan/UBSan + abort/assert/signal detection + callback counter + range checks on struct http_response made while reading every header string and body byte + live-block count of a tracking allocator + pending-after-close detector, over structured mutations of generated responses on the simulated kernel',
